@@ -93,8 +93,37 @@ def second_order(rng, h, directed=False):
     another order (node metadata, weights and hyperedge metadata restored through the public setters).  Whatever a
     measure answered for h it must answer for this one; leftovers of the earlier life of the object (ids, memos,
     registries that clear() forgot) show as a difference."""
-    if rng.random() < 0.4:
+    r = rng.random()
+    if r < 0.25:
         return "copy-of-copy", h.copy().copy()
+    if r < 0.5:
+        # a copy that is then EXTENDED (new hyperedges get fresh ids in the copy) - the content differs from h's, the oracle
+        # recomputes its reference from what it observes on the returned object
+        g = h.copy()
+        ns = list(g.get_nodes())
+        for _ in range(3):
+            if len(ns) < 2:
+                break
+            k = rng.randint(2, min(3, len(ns)))
+            pick = rng.sample(ns, k)
+            e = (tuple(sorted(pick[:1])), tuple(sorted(pick[1:]))) if directed else tuple(sorted(pick))
+            if not g.check_edge(e):
+                g.add_edge(e, weight=2 if g.is_weighted() else None)
+                break
+        return "copy-then-extended", g
+    if r < 0.65:
+        # metadata handed to a node that already belongs to hyperedges (its incidences must be left alone)
+        ns = [n for n in h.get_nodes() if h.get_incident_edges(n)]
+        if ns:
+            v = rng.choice(sorted(ns, key=repr))
+            h.add_node(v, {"late": 1})
+            if hasattr(h, "add_nodes") and not directed and len(ns) > 1:
+                w_ = rng.choice(sorted(ns, key=repr))
+                try:
+                    h.add_nodes([w_], metadata={w_: {"late": 2}})
+                except Exception:
+                    pass
+        return "metadata-handed-to-existing-nodes", h
     nodes = {n: dict(h.get_node_metadata(n)) for n in h.get_nodes()}
     edges = [(e, h.get_weight(e), dict(h.get_edge_metadata(e))) for e in h.get_edges()]
     h.clear()
